@@ -36,7 +36,14 @@ def generate(chk, max_ops, with_txn, with_reopen, sample, simulate=None, focus=N
     walks = []
     if simulate:
         # long random walks: TLC -simulate prints the same per-transition lines; keep the longest history of each walk
-        scfg = gen_cfg(simulate["depth"], with_txn, with_reopen, configs)
+        if simulate.get("weighted"):
+            # WSpec of MC_Relational.tla: same actions, control / durability steps repeated so that walks contain them
+            scfg = vlib.scratch() + "/GenWorkload_%d_%s.cfg" % (simulate["depth"], with_txn)
+            open(scfg, "w").write(open(os.path.join(vlib.SPEC, "Gen_Workload.cfg")).read().replace("MaxOps = 12", "MaxOps = %d" % simulate["depth"])
+                                  .replace("WithTxn = TRUE", "WithTxn = %s" % ("TRUE" if with_txn else "FALSE"))
+                                  .replace("WithReopen = TRUE", "WithReopen = %s" % ("TRUE" if with_reopen else "FALSE")))
+        else:
+            scfg = gen_cfg(simulate["depth"], with_txn, with_reopen, configs)
         sim = vlib.run_tlc("MC_Relational.tla", scfg, workers=1, timeout=600,
                            simulate="num=%d" % simulate["num"], seed=chk.seed, extra=["-depth", str(simulate["depth"])])
         em = vlib.parse_emitted(sim["out"])
@@ -118,7 +125,8 @@ def replay_file(chk, path, relevant, signature):
 
 
 def standard(chk, relevant, signature, focus=None, with_txn=False, with_reopen=True, schema="pk", config_ops=None,
-             reopen_ops=None, quick=(3, 3500), thorough=(4, 60000), walks_quick=(40, 25), walks_thorough=(600, 40), extra_assumptions=()):
+             reopen_ops=None, quick=(3, 3500), thorough=(4, 60000), walks_quick=(40, 25), walks_thorough=(600, 40), extra_assumptions=(),
+             weighted_walks=False):
     """The common shape of a Relational.tla check: per-transition enumeration + random walks, replay, judge."""
     thorough_tier = chk.tier == "thorough"
     chk.replay_args = {"schema": schema, "config_ops": config_ops, "reopen_ops": reopen_ops}
@@ -128,7 +136,7 @@ def standard(chk, relevant, signature, focus=None, with_txn=False, with_reopen=T
     vlib.build_harness(); chk.mark("build")
     max_ops, sample = thorough if thorough_tier else quick
     wn, wd = walks_thorough if thorough_tier else walks_quick
-    cases, walks, gstats = generate(chk, max_ops, with_txn, with_reopen, sample, simulate={"num": wn, "depth": wd} if wn else None, focus=focus)
+    cases, walks, gstats = generate(chk, max_ops, with_txn, with_reopen, sample, simulate={"num": wn, "depth": wd, "weighted": weighted_walks} if wn else None, focus=focus)
     chk.mark("tlc_gen")
     res = replay(chk, cases, schema=schema, config_ops=config_ops, reopen_ops=reopen_ops)
     wres = replay(chk, walks, schema=schema, config_ops=config_ops, reopen_ops=reopen_ops, every_step=True) if walks else []
